@@ -11,6 +11,7 @@ for f in lean/NemoVerif.lean lean/Driver/Main.lean; do git rm -q --cached $f 2>/
 git checkout HEAD -- evidence/C04.json 2>/dev/null || true
 # evidence of properties this builder does not own: keep ours
 for f in $(git diff --name-only --diff-filter=U | grep "^evidence/" | grep -v "evidence/$id.json"); do git checkout HEAD -- $f; done
+git checkout FETCH_HEAD -- evidence/$id.json 2>/dev/null || true
 git checkout HEAD -- harness/runner.py harness/obligations.py tools/mkmanifest.py tools/run_seeded.py 2>/dev/null || true
 python3 tools/mkmanifest.py
 git add -A
